@@ -390,6 +390,12 @@ func baseC12(g *Gen, seed, index uint64) *Plan {
 		ev := allHookEvents[g.N(len(allHookEvents))]
 		for k := 0; k < extra; k++ {
 			h := g.newHook(100+10*ci+k, &co)
+			if g.Chance(0.3) {
+				// weights are decimal integers however they are padded: "08" is eight, "010" is ten
+				w := []int{8, 9, 10, -9, 7, 11}[g.N(6)]
+				h.Hook.Weight = &w
+				h.Hook.PadWeight = 2 + g.N(2)
+			}
 			if g.Chance(0.7) {
 				h.Hook.Events = []string{ev}
 				if g.Chance(0.3) {
